@@ -2381,6 +2381,10 @@ impl LineBuf {
 				let include_last_char = verb == Some(&Verb::Change) &&
 					matches!(motion.1, Motion::WordMotion(To::Start, _, Direction::Forward));
 
+				if verb.is_some() && dir == Direction::Backward && self.cursor.get() == 0 {
+					// Nowhere to go from the very start of the buffer: the operator is cancelled
+					return MotionKind::Null
+				}
 				let mut pos = self.dispatch_word_motion(count, to, word, dir, include_last_char);
 				if verb.is_some() && to == To::Start && dir == Direction::Forward {
 					// With an operator, a 'w' that would end at the first column of a later line
@@ -2646,14 +2650,16 @@ impl LineBuf {
 							continue
 						}
 						Motion::ForwardChar => {
-							if !self.is_selecting() && self.cursor.exclusive && self.grapheme_at(target.get()) == Some("\n") {
+							// 'cl' is evaluated when insert mode (which lets the cursor go anywhere) is already entered
+							let line_bound = !self.is_selecting() && (self.cursor.exclusive || verb == Some(&Verb::Change));
+							if line_bound && self.grapheme_at(target.get()) == Some("\n") {
 								// On the newline of an empty line: there is nothing to move over
 								if target.get() == self.cursor.get() {
 									return MotionKind::Null
 								}
 								break
 							}
-							if !self.is_selecting() && self.cursor.exclusive && self.grapheme_at(target.ret_add(1)) == Some("\n") {
+							if line_bound && self.grapheme_at(target.ret_add(1)) == Some("\n") {
 								if verb.is_some() {
 									// An operator takes the last character of the line too: its range ends at the newline
 									target.add(1);
